@@ -1201,6 +1201,232 @@ def c18_search(ctx, failing, corr, broken):
     return out
 
 
+# ---------------------------------------------------------------------------------------------------
+# C14
+# ---------------------------------------------------------------------------------------------------
+
+CMP_PY = {'operator<': lambda a, b: a < b, 'operator>': lambda a, b: a > b, 'operator<=': lambda a, b: a <= b,
+          'operator>=': lambda a, b: a >= b, 'operator==': lambda a, b: a == b, 'operator!=': lambda a, b: a != b}
+GRID = [(True, 1, 0), (True, 0, 0), (False, 0, 0), (False, 1, -1), (False, 1, 0), (False, 3, 0)]
+
+
+def _grid_float(x):
+    s, m, e = x
+    v = float(m) * 2.0 ** e
+    return -v if s else v
+
+
+def c14_search(ctx, failing, corr, broken):
+    """On the real code: each operator must equal the Python comparison of the component tuples
+    (lexicographic, -0 == +0) on grids that force ties in leading components; equal objects must hash
+    equally."""
+    rng = random.Random(ctx.seed + 14)
+    ents = [e for e in ctx.model if e['meta'].get('name') in CMP_PY and
+            e['meta']['kind'] in ('free', 'model-compare')]
+    hashes = [e for e in ctx.model if e['meta']['kind'] in ('hash', 'model-hash')]
+    reqs, info = [], []
+    for e in ents:
+        for fmt in (32, 64, 80):
+            v = e['instances'][0]['fmts'].get(str(fmt))
+            if v is None:
+                continue
+            n = v['n_in'] // 2
+            for _ in range(6 if not broken else 20):
+                a = [rng.choice(GRID) for _ in range(n)]
+                b = list(a)
+                k = rng.randrange(0, n + 1)
+                for i in range(k, n):
+                    b[i] = rng.choice(GRID)
+                if rng.random() < 0.3 and n:
+                    j = rng.randrange(n)
+                    if a[j][1] == 0:
+                        b[j] = (not a[j][0], 0, 0)
+                reqs.append((e['index'], fmt, [co.hex_of(*x) for x in a + b], []))
+                info.append(('cmp', e, fmt, a, b))
+    for e in hashes:
+        for fmt in (32, 64, 80):
+            v = e['instances'][0]['fmts'].get(str(fmt))
+            if v is None:
+                continue
+            n = v['n_in']
+            for _ in range(3):
+                a = [rng.choice(GRID) for _ in range(n)]
+                b = [(not x[0], 0, 0) if x[1] == 0 else x for x in a]
+                reqs.append((e['index'], fmt, [co.hex_of(*x) for x in a], []))
+                info.append(('hash', e, fmt, a, b))
+                reqs.append((e['index'], fmt, [co.hex_of(*x) for x in b], []))
+                info.append(('hash2', e, fmt, a, b))
+    res, _, _ = ctx.run_native(reqs)
+    out = []
+    prev = None
+    for (kind, e, fmt, a, b), r in zip(info, res):
+        if r is None or r.get('error'):
+            continue
+        if kind == 'cmp':
+            ta, tb = tuple(_grid_float(x) for x in a), tuple(_grid_float(x) for x in b)
+            want = CMP_PY[e['meta']['name']](ta, tb)
+            got = [t for (l, t) in other_outs(r)][0] == 'true'
+            if got != want:
+                out.append({'kind': 'c14-compare', 'entry': e['id'], 'fmt': fmt, 'index': e['index'],
+                            'left': ta, 'right': tb, 'inputs': [co.hex_of(*x) for x in a + b],
+                            'native': got, 'lexicographic': want,
+                            'what': '%s%s %s %s is %s on the real code; lexicographic comparison of the stored '
+                                    'components gives %s' % (e['id'], '', ta, tb, got, want)})
+        elif kind == 'hash':
+            prev = [t for (l, t) in other_outs(r)]
+        elif kind == 'hash2' and prev is not None:
+            cur = [t for (l, t) in other_outs(r)]
+            if cur != prev:
+                out.append({'kind': 'c14-hash', 'entry': e['id'], 'fmt': fmt, 'index': e['index'],
+                            'a': [co.hex_of(*x) for x in a], 'b': [co.hex_of(*x) for x in b],
+                            'hash_a': prev, 'hash_b': cur,
+                            'what': '%s: objects equal under == (differing only in the sign of zero) hash '
+                                    'differently' % e['id']})
+            prev = None
+        if len(out) >= 5:
+            break
+    return out
+
+
+# ---------------------------------------------------------------------------------------------------
+# C11
+# ---------------------------------------------------------------------------------------------------
+
+def is_angle_entry(e):
+    m = e['meta']
+    if m['cls'].startswith(('unit:', 'model:')) or m.get('unit') or m.get('ufmt'):
+        return False
+    if m['cls'] == 'Angle' and m['kind'] == 'ctor' and len(m['args']) == 2 and m['args'][0] not in (
+            'AngularSpeed',) and all(a in SHAPE_OF_VECTORISH for a in m['args']):
+        return True
+    return m.get('name') == 'Angle' and m['kind'] == 'method'
+
+
+SHAPE_OF_VECTORISH = None
+
+
+def _vectorish(ctx):
+    global SHAPE_OF_VECTORISH
+    if SHAPE_OF_VECTORISH is None:
+        d = {}
+        for c in ctx.classes['classes']:
+            if c['comps'] in (2, 3):
+                d[c['name']] = c['comps']
+        SHAPE_OF_VECTORISH = d
+    return SHAPE_OF_VECTORISH
+
+
+def c11_search(ctx, failing, corr, broken):
+    """C11 on the real code: the angle between non-zero finite vectors is a number in [0, Pi<T>], never
+    NaN, bit-identical under swapping the arguments and under power-of-two rescaling."""
+    import pyfloat
+    _vectorish(ctx)
+    rng = random.Random(ctx.seed + 11)
+    ents = [e for e in ctx.model if is_angle_entry(e)]
+    by_id = ctx.by_id
+    pis = {int(k): co.frac_of_canon(co.canon_of_hex(v)) for k, v in ctx.tables['pi'].items()}
+    norm3 = by_id.get('Direction::ctor(Vector)')
+    norm2 = by_id.get('PlanarDirection::ctor(PlanarVector)')
+    out = []
+    for fmt in (64, 32, 80):
+        # stage 0: unit vectors from the library's own normalisation
+        pool = {2: [], 3: []}
+        reqs0, meta0 = [], []
+        for n, ne in ((3, norm3), (2, norm2)):
+            if ne is None:
+                continue
+            for _ in range(40):
+                v = [co.random_value(rng, fmt, 'moderate') for _ in range(n)]
+                v = [(s, m or 1, e) for (s, m, e) in v]
+                reqs0.append((ne['index'], fmt, [co.hex_of(*x) for x in v], []))
+                meta0.append(n)
+        res0, _, _ = ctx.run_native(reqs0)
+        for n, r in zip(meta0, res0):
+            if r and not r.get('error'):
+                pool[n].append([o['t'] for o in r['outs'] if o['l'].rsplit(':', 1)[1].startswith('num')])
+        reqs, info = [], []
+        for e in ents:
+            m = e['meta']
+            args = ([m['cls']] if m.get('self') else []) + list(m['args'])
+            if len(args) != 2 or not all(a in SHAPE_OF_VECTORISH for a in args):
+                continue
+            n = SHAPE_OF_VECTORISH[args[0]]
+            if SHAPE_OF_VECTORISH[args[1]] != n:
+                continue
+            isdir = ['Direction' in a for a in args]
+            for trial in range(8 if not broken else 30):
+                base = [co.random_value(rng, fmt, 'moderate') for _ in range(n)]
+                base = [(s, mm or 1, ee) for (s, mm, ee) in base]
+                mode = rng.choice(['parallel', 'antiparallel', 'random', 'parallel'])
+                if any(isdir) and pool[n]:
+                    d = rng.choice(pool[n])
+                    vecs = []
+                    for k in range(2):
+                        if isdir[k]:
+                            vecs.append(list(d) if mode != 'random' or k == 0 else rng.choice(pool[n]))
+                        else:
+                            # a vector parallel to d: d scaled by a power of two (exact)
+                            sh = rng.randrange(-6, 7)
+                            vv = []
+                            for t in d:
+                                fr = co.frac_of_canon(co.canon_of_hex(t)) * Fraction(2) ** sh
+                                if mode == 'antiparallel':
+                                    fr = -fr
+                                neg, mm, ee = sexpr_dy(fr)
+                                vv.append(co.hex_of(neg, mm, ee))
+                            vecs.append(vv)
+                    ins = vecs[0] + vecs[1]
+                else:
+                    a = base
+                    if mode == 'random':
+                        b = [co.random_value(rng, fmt, 'moderate') for _ in range(n)]
+                        b = [(s, mm or 1, ee) for (s, mm, ee) in b]
+                    else:
+                        k3 = rng.randrange(1, 1 << 10)
+                        b = []
+                        for (s, mm, ee) in a:
+                            fr = pyfloat.round_to(_val((s, mm, ee)) * k3 * (-1 if mode == 'antiparallel' else 1), fmt)
+                            neg, m2, e2 = sexpr_dy(fr)
+                            b.append((neg, m2, e2))
+                    ins = [co.hex_of(*x) for x in a] + [co.hex_of(*x) for x in b]
+                reqs.append((e['index'], fmt, ins, []))
+                info.append((e, ins, n, mode, 'direct'))
+                reqs.append((e['index'], fmt, ins[n:] + ins[:n], []))
+                info.append((e, ins, n, mode, 'swapped'))
+        res, _, _ = ctx.run_native(reqs)
+        last = None
+        for (e, ins, n, mode, which), r in zip(info, res):
+            if r is None or r.get('error'):
+                continue
+            outs = num_outs(r)
+            if not outs:
+                continue
+            c = outs[0][1]
+            bad = None
+            if c == 'nan':
+                bad = 'is NaN'
+            elif c in ('inf', '-inf'):
+                bad = 'is infinite'
+            else:
+                v = co.frac_of_canon(c)
+                if v < 0 or v > pis[fmt]:
+                    bad = 'is %s, outside [0, Pi<T>]' % c
+            if which == 'direct':
+                last = c
+            elif bad is None and last is not None and last != c:
+                a0, a1 = (([e['meta']['cls']] if e['meta'].get('self') else []) + list(e['meta']['args']))
+                if a0 == a1:
+                    bad = 'is %s but %s with the arguments swapped' % (last, c)
+            if bad:
+                out.append({'kind': 'c11-angle', 'entry': e['id'], 'fmt': fmt, 'index': e['index'],
+                            'inputs': ins if which == 'direct' else ins[n:] + ins[:n], 'arrangement': mode,
+                            'native_output': c,
+                            'what': 'the angle computed by %s for %s non-zero finite vectors %s' % (e['id'], mode, bad)})
+                if len(out) >= 4:
+                    return out
+    return out
+
+
 def quantity_corr(pred, seed_off, per_quick=2, per_thorough=30):
     def f(ctx):
         sel = [e for e in ctx.model if not e['meta']['cls'].startswith(('unit:', 'model:')) and pred(e)]
@@ -1210,6 +1436,34 @@ def quantity_corr(pred, seed_off, per_quick=2, per_thorough=30):
 
 
 SPECS = {
+    'C11': {
+        'id': 'C11', 'level': 'proof',
+        'lean_targets': ['PhQVerif.Audit.C11'],
+        'checkers': [],
+        'correspond': lambda ctx: (_vectorish(ctx), quantity_corr(is_angle_entry, 11, 10, 300)(ctx))[1],
+        'search': c11_search,
+        'always_search': True, 'audit_all': False,
+        'assumptions': ['LibmSpec: acos maps [-1, 1] into [0, fl(pi)] and acos(1) = 0 (glibc; sampled against an '
+                        'mpmath reference by the correspondence)',
+                        'the interval is [0, Pi<T>] with the library\'s own constant (for float and long double '
+                        'Pi<T> > pi)'],
+    },
+    'C14': {
+        'id': 'C14', 'level': 'proof',
+        'lean_targets': ['PhQVerif.Audit.C14'],
+        'checkers': [('C14cmp', 'quantityEntries'), ('C14cmp', 'modelEntries')],
+        'correspond': lambda ctx: co.correspond(
+            ctx.cache, LEAN, [e for e in ctx.model if e['meta'].get('name') in CMP_PY and
+                              e['meta']['kind'] in ('free', 'model-compare')], ctx.seed + 14,
+            per_entry=4 if ctx.tier == 'quick' else 100),
+        'search': c14_search,
+        'always_search': True,
+        'assumptions': ['soundness theorem is over any LinearOrder on the component values; that the non-NaN floats '
+                        'under IEEE comparison (with +0 = -0) are one is the standard fact relied on',
+                        'hash combiner (17, 31*r + h mod 2^64) is hand-modelled; std::hash<T>(+0) = std::hash<T>(-0) '
+                        'is a property of libstdc++ checked on the real code by the search',
+                        'Dimensions (int8_t, not a template) is hand-modelled in C06'],
+    },
     'C05': {
         'id': 'C05', 'level': 'proof',
         'lean_targets': ['PhQVerif.Audit.C05'],
